@@ -130,6 +130,9 @@ Stateless(e) ==
     [] e.op = "srsign" -> SignOK(e)
     [] e.op = "srverify" -> VerifyOK(e)
     [] e.op = "srdecode" -> DecodeOK(e)
+    \* length sweep: a signature verifies on the transcript it was made for and on no transcript whose context or message
+    \* differs (the framing commits to every byte and to both lengths: Merlin.tla / MC_C13 injectivity); verdict by class
+    [] e.op = "srsweep" -> e.same = TRUE /\ e.ctxlast = FALSE /\ e.msglast = FALSE /\ e.split = FALSE /\ e.failed = TRUE
     [] e.op = "srgen" -> LET key == ModL(FromBytes(SubSeq(e.entropy, 1, 64)))
                              skb == ToBytes(key, 32) \o SubSeq(e.entropy, 65, 96)
                          IN /\ e.mini = SubSeq(e.entropy, 1, 32)
